@@ -365,3 +365,9 @@ func init() {
 		runLoopCondRule(c, "X.loopcond", func(fn *ssa.Function) bool { return inModule(fn) }, 1)
 	}})
 }
+
+func init() {
+	register(&Property{ID: "X-delegate", NeedSSA: true, Decided: "dump", NotDecided: "-", Run: func(c *Ctx) {
+		delegateSiblingRule(c, "X.delegate", []string{"NewColumnIndexer", "NewColumnBuffer", "NewDictionary", "NewPage"}, 1)
+	}})
+}
